@@ -22,28 +22,30 @@ VARIABLES meta,     \* acknowledged metadata (sequence of bytes)
           pend,     \* what the failed operation would have produced: [pre, post, premeta, postmeta]
           pinit,    \* state and metadata just before the first batch initialisation of this live phase
           lastl,    \* line of the last successful flush of the instance that was then dropped (0 = none)
-          retried   \* a call was issued on the live instance after the injected failure (a retry)
-svars == <<l, t, d, used, meta, phase, pend, pinit, lastl, retried>>
+          retried,  \* a call was issued on the live instance after the injected failure (a retry)
+          since     \* acknowledged states [t, meta] of the live instance since its last successful flush (or creation)
+svars == <<l, t, d, used, meta, phase, pend, pinit, lastl, retried, since>>
 
-NoPend == [pre |-> Empty, post |-> Empty, premeta |-> <<>>, postmeta |-> <<>>]
+NoPend == [pre |-> Empty, post |-> Empty, premeta |-> <<>>, postmeta |-> <<>>, ts |-> {Empty}, metas |-> {<<>>}]
 NoInit == [on |-> FALSE, t |-> Empty, meta |-> <<>>]
 
-SInit == l = 1 /\ t = Empty /\ d = 0 /\ used = {} /\ meta = <<>> /\ phase = "none" /\ pend = NoPend /\ pinit = NoInit /\ lastl = 0 /\ retried = FALSE
+SInit == l = 1 /\ t = Empty /\ d = 0 /\ used = {} /\ meta = <<>> /\ phase = "none" /\ pend = NoPend /\ pinit = NoInit /\ lastl = 0 /\ retried = FALSE /\ since = {}
 
 ObsMeta(o) == IF "meta" \in DOMAIN o THEN o.meta ELSE <<>>
 MetaAfter(op, m) == IF op.c = "set_meta" THEN op.m ELSE m
 
 \* ---- what each line must satisfy ----
 \* reopen after a fault: Storage!Dur on the observation
+\* pend.ts / pend.metas: the states a reopen may legitimately find per position: after an injected error {acknowledged,
+\* intended}; after a crash every acknowledged state since the last successful flush, and the intended one
 DurOK(o, dd) ==
   /\ ~Broken(o)
-  /\ o.next \in {pend.pre.next, pend.post.next}
-  /\ ObsMeta(o) \in {pend.premeta, pend.postmeta}
+  /\ o.next \in {s.next : s \in pend.ts}
+  /\ ObsMeta(o) \in pend.metas
   /\ IF Sparse(o)
-     THEN /\ \A i \in NZPos(o) : NZVal(o, i) \in {Lf(pend.pre, i), Lf(pend.post, i)}
-          /\ \A i \in (DOMAIN pend.pre.lv) \cup (DOMAIN pend.post.lv) :
-                SparseLeaf(o, i) \in {Lf(pend.pre, i), Lf(pend.post, i)}
-     ELSE \A i \in 0..(Cap(dd) - 1) : ObsLeaf(o, i) \in {Lf(pend.pre, i), Lf(pend.post, i)}
+     THEN /\ \A i \in NZPos(o) : NZVal(o, i) \in {Lf(s, i) : s \in pend.ts}
+          /\ \A i \in UNION {DOMAIN s.lv : s \in pend.ts} : SparseLeaf(o, i) \in {Lf(s, i) : s \in pend.ts}
+     ELSE \A i \in 0..(Cap(dd) - 1) : ObsLeaf(o, i) \in {Lf(s, i) : s \in pend.ts}
 
 SameAsBefore(o, b) ==
   /\ ~Broken(o) /\ ~Broken(b)
@@ -66,7 +68,7 @@ OpenOK(e) ==
               \* whatever happened before, a SUCCESSFUL flush followed by a reopen yields what the instance
               \* itself reported before closing (root, leaf count, leaves, metadata)
               /\ (Prop = "C16" /\ lastl > 0 /\ ~pinit.on => SameAsBefore(e.obs, Rec[lastl].obs))
-         [] OTHER -> TRUE                                   \* half-created location etc.: nothing was acknowledged
+         [] OTHER -> e.res # "panic"                         \* half-created location etc.: nothing was acknowledged, but no crash
 
 OpOK(e) ==
   IF phase # "live" THEN TRUE
@@ -101,7 +103,8 @@ SAdvance(e) ==
             /\ IF phase = "live" /\ e.fired
                THEN /\ phase' = "failed"
                     /\ pend' = [pre |-> t, post |-> After(t, Expected(e), "ok"),
-                                premeta |-> meta, postmeta |-> MetaAfter(e.op, meta)]
+                                premeta |-> meta, postmeta |-> MetaAfter(e.op, meta),
+                                ts |-> {t, After(t, Expected(e), "ok")}, metas |-> {meta, MetaAfter(e.op, meta)}]
                     /\ UNCHANGED <<t, meta, pinit>>
                ELSE /\ UNCHANGED <<phase, pend>>
                     /\ pinit' = (IF phase = "live" /\ e.op.c = "init" /\ e.res = "ok" /\ ~pinit.on
@@ -109,10 +112,24 @@ SAdvance(e) ==
                     /\ IF Broken(e.obs) THEN UNCHANGED <<t, meta>>
                        ELSE /\ t' = Adopt(e.obs, d, After(t, Expected(e), e.res))
                             /\ meta' = ObsMeta(e.obs)
+       [] e.t = "crash" ->
+            \* the process died inside a storage operation of the call e.inflight (crash point); what the dead
+            \* instance had acknowledged is t (replayed on a shadow location); nothing was reported for the call in flight
+            /\ phase' = (IF e.opened THEN "failedclosed" ELSE "unjudged")
+            /\ pend' = [pre |-> t, post |-> After(t, SpecStep(d, t, e.inflight), "ok"),
+                        premeta |-> meta, postmeta |-> MetaAfter(e.inflight, meta),
+                        ts |-> {x.t : x \in since} \cup {t, After(t, SpecStep(d, t, e.inflight), "ok")},
+                        metas |-> {x.meta : x \in since} \cup {meta, MetaAfter(e.inflight, meta)}]
+            /\ lastl' = 0 /\ retried' = FALSE
+            /\ UNCHANGED <<t, d, meta, pinit>>
        [] e.t = "drop" ->
             /\ phase' = (CASE phase = "live" -> "closed" [] phase = "failed" -> "failedclosed" [] OTHER -> phase)
             /\ UNCHANGED <<t, d, meta, pend, pinit, lastl, retried>>
        [] OTHER -> UNCHANGED <<t, d, meta, phase, pend, pinit, lastl, retried>>
+  /\ since' = (CASE e.t = "open" -> {[t |-> t', meta |-> meta']}
+                 [] e.t = "op" -> (IF e.op.c = "flush" /\ e.res = "ok" /\ ~e.fired THEN {[t |-> t', meta |-> meta']}
+                                   ELSE since \cup {[t |-> t', meta |-> meta']})
+                 [] OTHER -> since)
 
 -----------------------------------------------------------------------------
 \* Known findings of this judge
